@@ -29,6 +29,7 @@ class Compiler:
         self.next_internal_symbol_prefix = 1
         self.times_file_compiled = collections.defaultdict(int)
         self.internal_prefix_to_state = {}
+        self.all_files_compiled = False
         if _VERIF:
             self.verif_trace = []
 
@@ -368,6 +369,8 @@ class Compiler:
                 addr += data.length()
             else:
                 addr += len(data)
+
+        self.all_files_compiled = True
 
         if not link_base["promise"].settled:
             link_base["promise"].settle(0o1000)
